@@ -60,7 +60,7 @@ impl Property for C05 {
             .prop_flat_map(|lang| {
                 let l2 = lang.clone();
                 (
-                    prop_oneof![6 => Just(0u8), 1 => Just(1u8), 1 => Just(2u8), 1 => Just(3u8)],
+                    prop_oneof![6 => Just(0u8), 1 => Just(1u8), 1 => Just(2u8), 1 => Just(3u8), 1 => Just(4u8)],
                     num_strategy(1_000_000_000),
                     prop_oneof![3 => "[0-9]{1,3}", 2 => "0{1,3}[0-9]{1,3}", 2 => "[0-9]{4,6}", 1 => "0{1,6}"],
                     choices(),
@@ -99,10 +99,16 @@ impl Property for C05 {
         match c.shape {
             0 => {
                 let mut words = if c.choices.is_empty() { spell::cardinal(&c.lang, c.n, &mut Canon) } else { spell::cardinal_nk(&c.lang, c.n, &mut ch) };
+                // one case in eight: spoken leading zeros before the integer part are kept in the decimal too (C16)
+                let lead = if c.choices.len() >= 3 && c.choices[2] < 32 && c.n > 0 { 1 + (c.choices[2] as usize % 3) } else { 0 };
+                for _ in 0..lead {
+                    words.insert(0, spell::zero_word(&c.lang).to_string());
+                }
                 words.push(sep);
                 words.extend(fraction_words(&c.lang, &c.d, &mut ch));
-                let expect = format!("{}{}{}", c.n, mark, c.d);
+                let expect = format!("{}{}{}{}", "0".repeat(lead), c.n, mark, c.d);
                 let value: f64 = format!("{}.{}", c.n, c.d).parse().unwrap();
+                obs.label_if(lead > 0, "leading-zeros-before-the-integer-part");
                 let ctx_has_det = |s: &str| s.to_lowercase().split(|x: char| !(x.is_alphanumeric() || x == '\'')).any(|w| matches!(w, "un" | "le" | "du" | "l'"));
                 let allow = c.lang == "fr" && words.iter().any(|w| w == "neuf") && (ctx_has_det(&c.prefix) || words.iter().any(|w| w == "un"));
                 let ran = roundtrip_ex(&c.lang, &words, &expect, value, false, &c.prefix, &c.suffix, allow, false).map_err(|e| format!("{} {}", tag, e))?;
@@ -164,6 +170,29 @@ impl Property for C05 {
                 obs.label(if c.suffix.is_empty() { "neg:separator-at-end-of-text" } else { "neg:separator-then-ordinary-word" });
                 obs.nontrivial(&(&c.lang, &text));
                 obs.sample(|| json!({"lang": c.lang, "text": text, "expect": want}));
+            }
+            4 => {
+                // a zero word after a complete decimal whose fraction is spelled as a number starts a new numeral
+                if c.lang == "en" || c.lang == "de" || c.d.bytes().all(|b| b == b'0') {
+                    obs.exclude("shape-4-not-for-digit-by-digit-fractions");
+                    return Ok(());
+                }
+                let mut words = spell::cardinal_nk(&c.lang, c.n, &mut ch);
+                words.push(sep);
+                words.extend(fraction_words(&c.lang, &c.d, &mut Bytes::new(&[])));
+                let z = spell::zero_word(&c.lang);
+                let text = format!("{}{} {}{}", c.prefix, words.join(" "), z, c.suffix);
+                let want = format!("{}{}{}{} 0{}", c.prefix, c.n, mark, c.d, c.suffix);
+                if neuf_set_aside(&c.lang, &text) {
+                    obs.exclude("fr-neuf-heuristic-set-aside");
+                    return Ok(());
+                }
+                let out = replace_numbers_in_text(&text, lg, 0.0);
+                if out != want {
+                    return Err(format!("{} a zero after a complete decimal starts a new numeral: rewrite of {:?} = {:?}, expected {:?}", tag, text, out, want));
+                }
+                obs.label("neg:zero-after-a-decimal");
+                obs.nontrivial(&(&c.lang, &text));
             }
             _ => {
                 if c.lang != "en" && c.lang != "de" {
